@@ -155,7 +155,7 @@ def source_tie(rundir, wanted):
     except Exception as e:
         return dict(ok=False, failed=["translator"], log="lib/srcgen.py could not translate /repo's sources: %s" % e, theorems=names, assumptions=[], gen_sha=None)
     h = hashlib.sha256(gen.encode() + tie_txt.encode())
-    for v in ("Base_Bytes.v", "Spec_SHA.v", "Spec_Base64.v", "Spec_Base32.v", "Spec_Base36.v", "Model_Sha1Transform.v"):
+    for v in ("Base_Bytes.v", "Spec_SHA.v", "Spec_Base64.v", "Spec_Base32.v", "Spec_Base36.v", "Model_Sha1Transform.v", "Model_Sha2Ctx.v"):
         h.update(open(os.path.join(COQ, v), "rb").read())
     cdir = os.path.join(CACHE, "tie"); os.makedirs(cdir, exist_ok=True)
     cfile = os.path.join(cdir, h.hexdigest()[:24] + ".json")
